@@ -28,7 +28,7 @@ func init() {
 		ID:       "C02",
 		Title:    "SkipList and SkipListWithCmp behave as an ordered map",
 		Quick:    12000,
-		Thorough: 400000,
+		Thorough: 120000,
 		Gen:      gen,
 		Corpus:   corpus,
 		Impl:     impl,
@@ -53,6 +53,7 @@ func init() {
 		},
 		Rule:     "op sequences (set/setnx/setx/get/getnode/setnode/rm/clear/init/len/head/keys/values/range/all/rfrom/rrange with early stop) on SkipList[int|string,int] (zero value and New) and SkipListWithCmp (natural, reverse, modular-then-value / length-then-bytes comparators) with forced tower heights; non-trivial = ≥ 6 ops with at least one top-level growth and one successful removal; distinct by hash of the op list",
 		Classify: classify,
+		Facts:    facts,
 		Parallel: true,
 		Assumptions: []string{
 			"Go int treated as unbounded (Len)",
